@@ -9,7 +9,7 @@ from mcv.ref import names as N
 
 AKAI_NAMES = ["A", "A L", "A R", "A-L", "A-R", "A  L", "A -L", "A -R", "AL", "L", "-L", "B L", "B R", "A.L"]
 AKAI_N4 = ["A", "A L", "A R", "A -L", "A  L", "A  R"]
-ROLAND_NAMES = ["A", "A L", "A R", "A-L", "a L", "A (2)", "A (2) L", "A R ", "B-R"]
+ROLAND_NAMES = ["A", "A L", "A R", "A-L", "a L", "A (2)", "A (2) L", "A R ", "B-R", "A l", "A r"]
 LEN_EQ = [10, 10, 10, 10]
 LEN_UNEQ = [10, 7, 9, 8]
 LEN_ONE = [1, 1, 1, 1]                  # a single frame
@@ -130,7 +130,7 @@ class Check(CheckBase):
     title = "Left/right pairs merge into one stereo file; no sample is lost or duplicated"
     rule = ("all ordered k-tuples of sibling names (every ordering of every multiset) over a near-collision alphabet: AKAI "
             "volume, 14 names, k<=3 (quick) / k<=4 (thorough), plus all 4-tuples over the reduced 6-name alphabet; Roland "
-            "performance, 9 names, k<=2 (quick) / k<=3 (thorough); equal lengths (10 frames), and unequal lengths, differing sample "
+            "performance, 11 names (incl. lower-case 'l' / 'r' endings, which are not L/R forms), k<=2 (quick) / k<=3 (thorough); equal lengths (10 frames), and unequal lengths, differing sample "
             "rates, single-frame samples and samples of 2049 frames (one more than the transcoder block) for k<=2 (quick) / "
             "all (thorough); large directories: 201 AKAI siblings (70 Roland) with an L/R pair at every pair of adjacent positions "
             "and at far-apart positions. Oracle: every sample's position-coded PCM in exactly one channel of exactly one file; channel sum = "
